@@ -325,7 +325,15 @@ namespace bloch::cli {
                     std::cout << "Elapsed: " << elapsed << "s\n\n";
 
                     if (!aggregate.empty()) {
-                        for (auto& var : aggregate) {
+                        // Tables in the order of their names: the order of an unordered_map
+                        // depends on the hashes of all names, so renaming one variable used to
+                        // reshuffle the tables of the others.
+                        std::vector<std::string> trackedNames;
+                        trackedNames.reserve(aggregate.size());
+                        for (const auto& kv : aggregate) trackedNames.push_back(kv.first);
+                        std::sort(trackedNames.begin(), trackedNames.end());
+                        for (const auto& trackedName : trackedNames) {
+                            auto& var = *aggregate.find(trackedName);
                             // Header: e.g., "qubit q" or "qubit[] qreg"
                             std::cout << var.first << "\n";
                             std::vector<std::pair<std::string, int>> vals(var.second.begin(),
